@@ -355,12 +355,13 @@ func (w *c13World) judgeTimed() {
 			}
 			o := tOutcome{t: endT(c), raEnd: -1}
 			ph, _, _ := classifyTimed(c)
-			if c.Out != nil && !c.Out.NetErr && !c.Out.Stall && (c.Out.Status == 429 || c.Out.Status == 503) {
+			// (for an attempt the client's own timeout cancelled, c.Out is the answer that never arrived)
+			if c.Out != nil && !c.TimedOut && !c.Out.NetErr && !c.Out.Stall && (c.Out.Status == 429 || c.Out.Status == 503) {
 				if ra, ok := retryAfter(c.Out.RA); ok {
 					o.raEnd = c.DoneT + ra
 				}
 			}
-			plain408 := c.Out != nil && c.Out.Status == 408 && ph == phRetry && c.Out.CutAt < 0 && !c.Out.NetErr && !c.Out.Stall
+			plain408 := c.Out != nil && !c.TimedOut && c.Out.Status == 408 && ph == phRetry && c.Out.CutAt < 0 && !c.Out.NetErr && !c.Out.Stall
 			o.failure = (ph == phRetry || ph == phEither) && !plain408
 			hist = append(hist, o)
 		}
